@@ -396,7 +396,11 @@ class Slicer:
                 return True
             if x[0] == 'agg' and x[1] is not None:
                 return all(tabular(fv) for _, fv in x[3])
-            return False
+            # the payload of the matched variant itself (`Self::Directory(path) => path`)
+            y = x
+            while y[0] == 'field':
+                y = y[1]
+            return y is not x and y[0] == 'variant'
         if not all(tabular(x) for x in vals):
             return None
         from .guards import conditions
